@@ -745,10 +745,11 @@ static void conf_parse_entry(struct conf_parse *parse, struct conf_node_object *
         parse->curr--;
         string = conf_parse_string(parse);
         ch = conf_parse_whitespace(parse, 1);
-        if (ch == ';' || ch == '\n' || ch == '}') {
+        if (ch == ';' || ch == '\n' || ch == '}' || ch == '\0') {
             struct conf_node_string *node;
 
-            parse->curr--;
+            if (ch != '\0')
+                parse->curr--;
             node = conf_parse_get_child(parent, name, CONF_STRING, sizeof(*node));
             xfree(node->value);
             node->value = string;
@@ -773,7 +774,7 @@ static void conf_parse_entry(struct conf_parse *parse, struct conf_node_object *
                 string_vector_append(&new_value, value);
                 ch = conf_parse_whitespace(parse, 1);
                 if (ch == '\0')
-                    longjmp(parse->env, PARSE_PREMATURE_EOF);
+                    break;
                 if (ch == '\n' || ch == ';' || ch == '}') {
                     /* Leave the terminator for the check below. */
                     parse->curr--;
@@ -803,7 +804,7 @@ static void conf_parse_entry(struct conf_parse *parse, struct conf_node_object *
         parse->curr--;
         return;
     }
-    if ((ch != ';') && (ch != '\n'))
+    if ((ch != ';') && (ch != '\n') && (ch != '\0'))
         longjmp(parse->env, PARSE_EXPECTED_SEMICOLON);
 }
 
